@@ -276,28 +276,7 @@ def _check(rep, tier, tag, made):
         recs.append(dict(kind=kind, n=n, DEN=den, pts=[list(p) for p in pts], grid=grid,
                          mp=dict(err=mp[0], val=mp[1]), gfk=dict(err=gfk[0], val=gfk[1])))
         rep.case(("rec", kind, tuple(n), tuple(pts), tuple(grid)))
-    stv, bad_ = ftable.validate_records("MPGridRec.tla", ftable.REC_CFG, recs, tag, chunk=300)
-    rep.add_tlc("c23_records", stv)
-    rep.add_traces(len(recs))
-    rinfo = {}
-    outside = []
-    for i, clauses in sorted(bad_.items()):
-        r = recs[i]
-        hard = [c for c in clauses if not c.startswith("info_")]
-        for c in clauses:
-            if c.startswith("info_"):
-                rinfo[c] = rinfo.get(c, 0) + 1
-        if "in_model" in hard or "kind_consistent" in hard:
-            outside.append((i, hard))
-            continue
-        if hard:
-            fn = "get_mp_grid" if "complete_detected" in hard else "grid_from_kpoints"
-            rep.violation(f"{fn}:recorded:{r['kind']}:{hard[0]}", dict(record=r, failing_clauses=hard))
-    if outside and not rep.violations:
-        raise MachineryError(f"recorded call outside the model: {outside[:3]} {str(recs[outside[0][0]])[:300]}")
-    rep.part("records_info", **rinfo)
-    rep.sample(dict(recorded=dict(recs[0], pts=recs[0]["pts"][:6])))
-    # binding self-test: corrupted records must be rejected
+    # binding self-test: corrupted copies of recorded calls must be rejected (validated in the same TLC run)
     badrecs = []
 
     def pick(pred, what):
@@ -323,10 +302,33 @@ def _check(rep, tier, tag, made):
     if r is not None:      # a rejected incomplete mesh reported as accepted
         r["gfk"] = dict(err="", val=list(range(len(r["pts"]))) if r["grid"] else list(r["n"]))
         badrecs.append((r, "status_is_property"))
+    stv, bad_ = ftable.validate_records("MPGridRec.tla", ftable.REC_CFG, recs + [b for b, _ in badrecs], tag, chunk=2000)
+    b2 = {j: bad_.pop(len(recs) + j, []) for j in range(len(badrecs))}
+    stv["distinct"] -= len(badrecs)
+    stv["generated"] -= 2 * len(badrecs)
+    rep.add_tlc("c23_records", stv)
+    rep.add_traces(len(recs))
+    rinfo = {}
+    outside = []
+    for i, clauses in sorted(bad_.items()):
+        r = recs[i]
+        hard = [c for c in clauses if not c.startswith("info_")]
+        for c in clauses:
+            if c.startswith("info_"):
+                rinfo[c] = rinfo.get(c, 0) + 1
+        if "in_model" in hard or "kind_consistent" in hard:
+            outside.append((i, hard))
+            continue
+        if hard:
+            fn = "get_mp_grid" if "complete_detected" in hard else "grid_from_kpoints"
+            rep.violation(f"{fn}:recorded:{r['kind']}:{hard[0]}", dict(record=r, failing_clauses=hard))
+    if outside and not rep.violations:
+        raise MachineryError(f"recorded call outside the model: {outside[:3]} {str(recs[outside[0][0]])[:300]}")
+    rep.part("records_info", **rinfo)
+    rep.sample(dict(recorded=dict(recs[0], pts=recs[0]["pts"][:6])))
     if badrecs:
-        _, b2 = ftable.validate_records("MPGridRec.tla", ftable.REC_CFG, [b for b, _ in badrecs], f"{tag}_selftest")
         missed = [c for j, (_, c) in enumerate(badrecs) if c not in b2.get(j, [])]
-        if missed:
+        if missed and not rep.violations:
             raise MachineryError(f"binding self-test failed: corrupted records accepted (expected failing clauses {missed}, TLC says {b2})")
         rep.part("binding_selftest", corrupted_records_rejected={str(k_): v for k_, v in b2.items()})
     shutil.rmtree(os.path.join(WORK, "records", tag), ignore_errors=True)
